@@ -30,10 +30,10 @@ def refs (e : Env) (role : Hash → Role) (h : Hash) (v : Option Blob) : List Ha
     | none => []
   | _, _ => []
 
-/-- a stored entry is usable in its role: a node entry holds a blob that decodes -/
+/-- a stored entry is usable in its role: it holds a blob, and a node entry holds a blob that decodes -/
 def GoodEntry (e : Env) (role : Hash → Role) (h : Hash) (v : Option Blob) : Prop :=
   match role h with
-  | .raw => True
+  | .raw => ∃ b, v = some b
   | .node _ => ∃ b, v = some b ∧ (e.view b).isSome = true
 
 /-- the database is closed: every entry is usable and everything it references is in the database -/
@@ -90,6 +90,24 @@ def OpOK (e : Env) (role : Hash → Role) : Op → Prop
   | .process items => ∀ p ∈ items, BlobOK e role p.1 p.2
   | .deliver b => BlobOK e role (e.H b) b
   | _ => True
+
+/-- an operation is admissible in state `s`: as `OpOK`, except that a delivered blob only has to be
+role-consistent if it is *accepted* — a blob whose hash is not pending (corrupted, unsolicited, late) is
+unconstrained -/
+def OpOKAt (e : Env) (role : Hash → Role) (s : St) : Op → Prop
+  | .deliver b => findReq s.requests (e.H b) = none ∨ BlobOK e role (e.H b) b
+  | op => OpOK e role op
+
+/-- every operation of the schedule is admissible in the state it is applied to -/
+def RunOK (e : Env) (role : Hash → Role) : St → List Op → Prop
+  | _, [] => True
+  | s, op :: t => OpOKAt e role s op ∧ RunOK e role (step e s op).1 t
+
+/-- whatever blob is stored under `h` hashes to `h` -/
+def HashKeyed (e : Env) (l : List Entry) : Prop := ∀ h b, (h, some b) ∈ l → e.H b = h
+
+/-- a Keccak collision -/
+def Collision (e : Env) : Prop := ∃ a b, a ≠ b ∧ e.H a = e.H b
 
 /-- what a reader reaches from `root` by following the entries of `db` -/
 inductive Reach (e : Env) (role : Hash → Role) (db : List Entry) (root : Hash) : Hash → Prop where
